@@ -126,6 +126,11 @@ ExhNext == UNCHANGED gvars
 G1Init == /\ \/ \E g \in G1Graphs(NNames), p \in G1Orders(NNames), sc \in PlaceIn : defs = G1Case(g, p, sc)
              \/ \E g \in G1SelfGraphs(NNames), p \in G1TwoOrders(NNames), sc \in SelfPlaces : defs = G1Case(g, p, sc)
           /\ val = <<>> /\ pos = <<>> /\ n = 0 /\ nb = 0 /\ rloose = 0 /\ rkmin = 0
+\* the acyclic graphs only, in EVERY key order (the cyclic ones are covered by G1Init)
+G1InitDag == /\ \E g \in G1Graphs(NNames), p \in Perms(NNames), sc \in PlaceIn :
+                  /\ ~ HasCycle(G1Case(g, [i \in 1..NNames |-> i], sc))
+                  /\ defs = G1Case(g, p, sc)
+             /\ val = <<>> /\ pos = <<>> /\ n = 0 /\ nb = 0 /\ rloose = 0 /\ rkmin = 0
 G2Init == /\ \E ch \in G2Choices(Len(G2Scopes)), rev \in G2Rev : defs = G2Case(ch, rev)
           /\ val = <<>> /\ pos = <<>> /\ n = 0 /\ nb = 0 /\ rloose = 0 /\ rkmin = 0
 
